@@ -10,8 +10,8 @@ THEOREMS = ['Props.C01.' + t for t in [
     'sections_preserved', 'insert_keeps_others', 'delete_keeps_order', 'update_sections_canonical',
     'write_read_fixpoint', 'flavour_param_spec', 'dispatch_as_modelled',
     'read_write_whole_partial', 'whole_sections_preserved', 'whole_fields', 'write_read_write_whole_partial',
-    'read_write_whole_meshfile_partial']]
-LEVEL_TEXT = ('Proof (partial): 42 Lean theorems, no sorry, about the executable model of t2data.py read/write: one record and one '
+    'read_write_whole_meshfile_partial', 'whole_fields_once']]
+LEVEL_TEXT = ('Proof (partial): 43 Lean theorems, no sorry, about the executable model of t2data.py read/write: one record and one '
               'dictionary line read back field by field (any record kind); chunked lists of any length in lines of n (both sides of '
               'every 4/8 boundary, all 17 chunk records of the current tables); record lists closed by a blank line; the default initial conditions of PARAM (0..12, ...) with continuation lines and the look-ahead into the next section; full section round '
               'trips for PARAM (both flavours: three dictionary lines, MOP digits, time steps of a negative const_timestep, default incons, look-ahead), ROCKS (incl. NAD continuation lines and all seven RP/CP parameters), RPCAP, LINEQ/SOLVR/MULTI, TIMES, ELEME, CONNE, GENER with its time/rate/enthalpy tables (main and extra-precision tables), INCON, INDOM, FOFT/GOFT, COFT, SHORT (lists resolved against the grid), MOMOP (MOP digits proved outright), SELEC, DIFFU, MESHM (RZ2D with RADII/EQUID/LOGAR/LAYER, XYZ, MINC); the (A3,I2) block-name cycle is '
@@ -20,14 +20,15 @@ LEVEL_TEXT = ('Proof (partial): 42 Lean theorems, no sorry, about the executable
               'round trip; PARAM/MULTI flavour choice; dispatch and record tables of /repo as modelled (decided on the generated tables). '
                             'read_write_whole_partial: read(write d) = canon d for whole objects, by induction over the object\'s section list through the '
               'keyword loop (title line, each section\'s round trip with a continuation that begins with a keyword line, PARAM\'s look-ahead '
-              'handed back to the loop, ENDCY/ENDFI), for TOUGH2-flavour objects with the mesh in the file, no extra-precision companion and '
-              'sections among ROCKS PARAM MOMOP START NOVER ELEME CONNE GENER LINEQ SOLVR RPCAP TIMES SELEC INCON INDOM MULTI DIFFU FOFT GOFT COFT (COFT only before the grid is read; side conditions of the section theorems stated on the '
+              'handed back to the loop, ENDCY/ENDFI), for objects of both flavours (TOUGH2; AUTOUGH2 = SIMUL section, param1_autough2/multi_autough2 records, written without extra-precision arguments) with the mesh in the file, no extra-precision companion and '
+              'sections among ROCKS PARAM MOMOP START NOVER ELEME CONNE GENER LINEQ SOLVR RPCAP TIMES SELEC INCON INDOM MULTI DIFFU FOFT GOFT COFT MESHM SHORT SIMUL, i.e. all 23 kinds (SIMUL: the simulator string comes back stripped, side condition that it is not blank; MESHM through its MESHMAKER keyword line, SHORT through its header line raw or padded, names resolved against the grid read before it; COFT only before the grid is read; side conditions of the section theorems stated on the '
               'reader\'s object when the section is met); whole_sections_preserved: the object read has the written object\'s _sections in '
               'the same order and its end keyword; whole_fields: its title, rock types, blocks, connections, generators, MOP/MOMOP options and '
               'default initial conditions are the canonical values of the written object\'s; write_read_write_whole_partial: write(read(write d)) = write(canon d) for the same objects; '
+              'whole_fields_once: for a section that occurs once in the written section list, the field it fills in the object read back (initial conditions, output times, FOFT/GOFT/COFT history requests - resolved against the blocks read when ELEME precedes them -, selection, diffusion, mesh-maker entries, short-output lists, INDOM, simulator string, parameter dictionary and time steps) is the canonical value of the written field, starting from the fresh object\'s empty value; '
               'read_write_whole_meshfile_partial: the same round trip with the mesh in an ASCII MESH file (keyword loop on the main file, then read_meshfile). '
-              'NOT proved (modelled; covered by the byte-for-byte correspondence and the oracle only): the whole-object composition for the other '
-              'section kinds SIMUL (AUTOUGH2 flavour), MESHM and SHORT, for the extra-precision companion file; the binary MESHA/MESHB pair; idempotence of field rounding on '
+              'NOT proved (modelled; covered by the byte-for-byte correspondence and the oracle only): the whole-object composition '
+              'for the extra-precision companion file (AUTOUGH2 objects written with extra_precision set); the binary MESHA/MESHB pair; idempotence of field rounding on '
               'reals (hence of canon on whole objects).')
 LEVEL_NOTE = ('Trusted: Lean kernel (+propext, Classical.choice, Quot.sound); the hand-written model (tied to /repo on every run: written '
               'files byte for byte, read-back objects attribute by attribute, incl. the six shipped files); C02 record theorems; '
